@@ -42,6 +42,10 @@ pub trait Service<Request> {
     type Error;
     type Future;
     spec fn log(&self) -> Seq<Request>;
+    spec fn ready_now(&self) -> Poll<Result<(), Self::Error>>;
+    // A-tower-03: poll_ready reports the readiness of the service (a ghost property of its state) and hands it no request
+    fn poll_ready(&mut self, cx: &mut Context) -> (r: Poll<Result<(), Self::Error>>)
+        ensures r == old(self).ready_now(), final(self).log() == old(self).log();
     fn call(&mut self, req: Request) -> (f: Self::Future)
         ensures final(self).log() == old(self).log().push(req);
 }
@@ -305,6 +309,10 @@ def build():
     WEB = 'is_web(req.headers@)'
     ONE = 'final(self).inner.log().len() == old(self).inner.log().len() + 1 && final(self).inner.log().drop_last() == old(self).inner.log()'
     NONE = 'final(self).inner.log() == old(self).inner.log()'
+    pr = [lambda t: t.sub_code('R9', r'Self::Error', '<S as Service<Request<Body>>>::Error'),
+          lambda t: t.edit('R12', len(t.t.rstrip()), len(t.t.rstrip()), ' where S: Service<Request<Body>>')]
+    u.fn(S, 'poll_ready', within='impl<S, ReqBody, ResBody> Service<Request<ReqBody>> for GrpcWebService<S>', header=hdr, close=True, sig_edits=pr, display='GrpcWebService::poll_ready',
+         ensures=[Clause('K0_ready_exactly_when_the_wrapped_service_is_and_no_request_is_handed_on', 'r == old(self).inner.ready_now() && final(self).inner.log() == old(self).inner.log()')])
     u.fn(S, 'call', within='impl<S, ReqBody, ResBody> Service<Request<ReqBody>> for GrpcWebService<S>', header=hdr, sig_edits=mg, body_edits=[r21_ref_const_field_arms],
          hints=[('before', 'match RequestKind::new', '        let ghost log0 = self.inner.log(); broadcast use lemma_push_drop_last; proof { lemma_coerced_names_distinct(); }')],
          ensures=[
@@ -374,6 +382,11 @@ pub mod client {
     u.fn(CL, 'layer', within='impl<S> Layer<S> for GrpcWebClientLayer', header='impl GrpcWebClientLayer {', close=True, props=['C17'], display='client::GrpcWebClientLayer::layer',
          sig_edits=[lambda t: t.sub_code('R9', r'Self::Service', 'GrpcWebClientService<S>'), lambda t: t.sub_code('R9', r'fn layer\(', 'fn layer<S>(')],
          ensures=[Clause('CL1_the_layer_wraps_the_transport_in_the_grpc_web_client_service', 'r.inner == inner')])
+    u.fn(CL, 'poll_ready', within='impl<S, B1, B2> Service<Request<B1>> for GrpcWebClientService<S>', header='impl<S> GrpcWebClientService<S> {', close=True, props=['C17'],
+         display='client::GrpcWebClientService::poll_ready',
+         sig_edits=[lambda t: t.sub_code('R9', r'Self::Error', '<S as Service<Request<GrpcWebCall<B1>>>>::Error'), lambda t: t.sub_code('R12', r'fn poll_ready\(', 'fn poll_ready<B1>('),
+                    lambda t: t.edit('R12', len(t.t.rstrip()), len(t.t.rstrip()), ' where S: Service<Request<GrpcWebCall<B1>>>')],
+         ensures=[Clause('CW0_ready_exactly_when_the_transport_is_and_no_request_is_handed_on', 'r == old(self).inner.ready_now() && final(self).inner.log() == old(self).inner.log()')])
     u.fn(CL, 'call', within='impl<S, B1, B2> Service<Request<B1>> for GrpcWebClientService<S>', header='impl<S> GrpcWebClientService<S> {', close=True, props=['C17'],
          display='client::GrpcWebClientService::call',
          sig_edits=[lambda t: t.sub_code('R9', r'Self::Future', 'ResponseFuture<S::Future>'),
